@@ -9,19 +9,17 @@ pub trait TreapItemSized {
     fn size(&self) -> usize;
 }
 
-thread_local! {
-    static RNG: std::cell::Cell<Rng> = std::cell::Cell::new(Rng::from_seed(42));
-}
+// One generator for the whole process, advanced under a lock: every node, on whichever thread it is
+// created, gets the next value of the same stream (nodes are Send, so treaps built on different
+// threads can be merged, and per-thread copies of one stream would give them identical priorities).
+static RNG: std::sync::Mutex<Rng> = std::sync::Mutex::new(Rng::from_seed(42));
 
 type Priority = u32;
 
 fn gen_priority() -> Priority {
-    RNG.with(|cell| {
-        let mut rng = cell.get();
-        let value = rng.next_raw();
-        cell.set(rng);
-        value as Priority
-    })
+    // the state is a plain integer, so a lock poisoned by a panicking thread is still usable
+    let mut rng = RNG.lock().unwrap_or_else(|e| e.into_inner());
+    rng.next_raw() as Priority
 }
 
 pub struct TreapNode<T> {
